@@ -149,16 +149,17 @@ CodecRoundTrip(ms, loopBits) ==
 
 (* ------------------------------------------------------------------ byte layout of apply_compression_strategy *)
 LE(v, n) == [i \in 1..n |-> (v \div (256 ^ (i - 1))) % 256]
-LegacyStep(lits, st, m) ==
+LegacyStep(lits, gpb, st, m) ==
       CASE m.k = "lit"   -> [bytes |-> st.bytes \o <<0, m.len % 256>> \o SubSeq(lits, st.lp + 1, Min2(st.lp + m.len, Len(lits))),
                              lp |-> st.lp + m.len]
-        [] m.k = "glob"  -> [st EXCEPT !.bytes = st.bytes \o <<1>> \o LE(m.pos % 65536, 2) \o LE(m.len % 65536, 2)]
+        [] m.k = "glob"  -> [st EXCEPT !.bytes = st.bytes \o <<1>> \o (IF gpb = 2 THEN LE(m.pos % 65536, 2) ELSE LE(m.pos, 4)) \o LE(m.len % 65536, 2)]
         [] m.k = "rle"   -> [st EXCEPT !.bytes = st.bytes \o <<2, m.b, m.len % 256>>]
         [] m.k = "near"  -> [st EXCEPT !.bytes = st.bytes \o <<3, m.d % 256, m.len % 256>>]
         [] m.k = "far1s" -> [st EXCEPT !.bytes = st.bytes \o <<4>> \o LE(m.d % 65536, 2) \o <<m.len % 256>>]
         [] m.k = "far2s" -> [st EXCEPT !.bytes = st.bytes \o <<5>> \o LE(m.d, 4) \o <<m.len % 256>>]
         [] m.k = "far2l" -> [st EXCEPT !.bytes = st.bytes \o <<6>> \o LE(m.d % 65536, 2) \o LE(m.len % 65536, 2)]
         [] m.k = "far3l" -> [st EXCEPT !.bytes = st.bytes \o <<7>> \o LE(m.d, 4) \o LE(m.len, 4)]
-WriteLegacy(ms, lits) == LET step(st, m) == LegacyStep(lits, st, m)
+(* gpb: bytes of the dictionary position of a global match (2 on the pinned tree, 4 with fix C02-5) *)
+WriteLegacy(ms, lits, gpb) == LET step(st, m) == LegacyStep(lits, gpb, st, m)
                          IN FoldLeft(step, [bytes |-> <<>>, lp |-> 0], ms).bytes
 =============================================================================
